@@ -14,6 +14,9 @@ R.field_types(
     _local_max_stream_data_bidi_local="int",
     _local_max_stream_data_bidi_remote="int",
     _local_max_stream_data_uni="int",
+    _remote_max_stream_data_bidi_local="int",
+    _remote_max_stream_data_bidi_remote="int",
+    _remote_max_stream_data_uni="int",
     _local_next_stream_id_bidi="int",
     _local_next_stream_id_uni="int",
     _max_datagram_size="int",
@@ -94,6 +97,9 @@ R.contract(
         "self._local_max_data.used == old(self._local_max_data.used) and self._local_max_data.value == old(self._local_max_data.value)",
         "implies(not known, result.max_stream_data_local == (self._local_max_stream_data_uni if uni(stream_id) else self._local_max_stream_data_bidi_remote))",
         "implies(not known, result.receiver.highest_offset == 0)",
+        # C06 (taken from the property: 'never exceeds the PEER's limits'): a stream the peer opened starts with the send limit the
+        # peer advertised for streams IT initiates (its initial_max_stream_data_bidi_local; nothing can be sent on its uni streams)
+        "implies(not known, result.max_stream_data_remote == (0 if uni(stream_id) else self._remote_max_stream_data_bidi_local))",
         "implies(known, result.max_stream_data_local == old(result.max_stream_data_local) and result.receiver.highest_offset == old(result.receiver.highest_offset))",
         # streams are only added; the streams that existed keep their identity and their send half (needed by the C16 clause of
         # the STOP_SENDING handler: a peer frame does not make another stream unwritable)
@@ -101,7 +107,7 @@ R.contract(
         "forall(lambda k: implies(k in old(self._streams), self._streams[k] == old(self._streams)[k]))",
         "forall(lambda k: implies(k in old(self._streams) and pre_existing(old(self._streams)[k]), self._streams[k].sender == old(self._streams[k].sender)))",
     ],
-    prop=["C07"],
+    prop=["C07", "C06"],
 )
 
 
@@ -113,7 +119,7 @@ R.contract(
     "QuicConnection._handle_stream_frame",
     assume_pre=["conn_limits_distinct(self)", "self._local_max_data.used >= 0", "self._quic_logger is None or context.quic_logger_frames is not None"],
     ghost_at={
-        "newly_received = max(0, offset + length - stream.receiver.highest_offset)": {
+        "assigns:newly_received": {  # semantic anchor: just before the statement that computes the charge
             "g_h0": "stream.receiver.highest_offset",
             "g_fs0": "stream.receiver._final_size",
             "g_lim": "stream.max_stream_data_local",
@@ -164,7 +170,7 @@ R.contract(
     "QuicConnection._handle_reset_stream_frame",
     assume_pre=["conn_limits_distinct(self)", "self._local_max_data.used >= 0", "self._quic_logger is None or context.quic_logger_frames is not None"],
     ghost_at={
-        "newly_received = max(0, final_size - stream.receiver.highest_offset)": {
+        "assigns:newly_received": {  # semantic anchor: just before the statement that computes the charge
             "g_h0": "stream.receiver.highest_offset",
             "g_fs0": "stream.receiver._final_size",
             "g_lim": "stream.max_stream_data_local",
